@@ -582,10 +582,10 @@ def dict_body(case):
 
 def plan(tier):
     if tier == "quick":
-        return ([{"name": "arbitrary%d" % i, "type": "a", "n": 250} for i in range(3)] +
-                [{"name": "grammar%d" % i, "type": "b", "n": 150} for i in range(6)] +
-                [{"name": "mutation%d" % i, "type": "c", "n": 100} for i in range(3)] +
-                [{"name": "dict%d" % i, "type": "d", "n": 150} for i in range(4)])
+        return ([{"name": "arbitrary%d" % i, "type": "a", "n": 800} for i in range(3)] +
+                [{"name": "grammar%d" % i, "type": "b", "n": 500} for i in range(6)] +
+                [{"name": "mutation%d" % i, "type": "c", "n": 300} for i in range(3)] +
+                [{"name": "dict%d" % i, "type": "d", "n": 500} for i in range(4)])
     return ([{"name": "arbitrary%d" % i, "type": "a", "n": 15000} for i in range(3)] +
             [{"name": "grammar%d" % i, "type": "b", "n": 8000} for i in range(5)] +
             [{"name": "mutation%d" % i, "type": "c", "n": 5000} for i in range(3)] +
